@@ -73,6 +73,11 @@ def cast(x, y):
         if isinstance(x, int) and isinstance(y, float):
             raise TypeError("Cannot cast value from float to int")
 
+        # y may be a one-element array (e.g. transforms using atleast_1d),
+        # which recent numpy versions refuse to convert to a scalar
+        if isinstance(y, np.ndarray) and y.ndim > 0 and y.size == 1:
+            y = y.reshape(-1)[0]
+
         ycast = type(x)(y)
 
     else:
